@@ -19,6 +19,18 @@ PASS_THROUGH = ('ParenExpr', 'ExprWithCleanups', 'MaterializeTemporaryExpr', 'CX
 SEM = 'CxxSem.'
 
 
+OSTR_RE = re.compile(r'\s*(?:std::)?(?:basic_string<char>|string|(?:std::)?back_insert_iterator<(?:std::)?basic_string<char>\s*>)\s*(&?)\s*$')
+
+
+def is_ostr_type(q):
+    """`std::string&` (non-const) or `std::back_insert_iterator<std::string>` by value: an OUTPUT string"""
+    q = q.replace('std::__cxx11::', 'std::')
+    m = OSTR_RE.match(q)
+    if not m or q.lstrip().startswith('const'):
+        return False
+    return bool(m.group(1)) != ('back_insert_iterator' in q)
+
+
 class Ty:
     def __init__(self, kind, w=None, signed=None, rec=None, elems=None):
         self.kind, self.w, self.signed, self.rec, self.elems = kind, w, signed, rec, elems
@@ -91,10 +103,12 @@ class Fx:
         self.cell = None             # decl id of the `const char**` in/out parameter (its cell is the state σ)
         self.buf = False             # the function has character cursors: every definition takes `buf`
         self.flow = False            # a Flow merge was emitted (join style)
+        self.ostr = None             # decl id of the `std::string&` / back_insert_iterator parameter the function appends to
+                                     # (an OUTPUT byte list: part of the state σ)
 
     @property
     def effectful(self):
-        return self.writes_self or self.throws or self.fuel or self.calls_fx or self.cell is not None or self.flow
+        return self.writes_self or self.throws or self.fuel or self.calls_fx or self.cell is not None or self.flow or self.ostr is not None
 
 
 class Env:
@@ -111,6 +125,7 @@ class Env:
         self.opaque_vals = {} # decl id -> (lean name, Ty, qualified name): the extra parameters
         self.join = False     # JOIN style (x2l_st.py jblock): `if` / loops deliver the variables they assign
         self.hoisted = {}     # node id of a postfix ++/-- evaluated as the old value (the increment follows the statement)
+        self.brk = None       # inside a loop body, at the loop's own flow level: tail(env) that a `break` delivers
 
     uses_self = property(lambda s: s.fx.uses_self, lambda s, v: setattr(s.fx, 'uses_self', v))
     ret_ty = property(lambda s: s.fx.ret_ty, lambda s, v: setattr(s.fx, 'ret_ty', v))
@@ -301,6 +316,8 @@ class Translator:
     def lean_ty(self, ty, n):
         if ty.kind in ('int', 'dbl', 'ptr', 'pptr'):
             return 'Int'
+        if ty.kind == 'ostr':
+            return SEM + 'Buf'
         if ty.kind == 'bool':
             return 'Bool'
         if ty.kind == 'pair':
@@ -446,6 +463,8 @@ class Translator:
         dq = p['type'].get('desugaredQualType', q)
         if '*' in dq and '&' not in dq:
             return self.resolve(p['type'], p)          # a character cursor (or refused there)
+        if is_ostr_type(dq):
+            return Ty('ostr')                          # an output string the function appends to
         if '*' in dq or ('&' in dq and not dq.lstrip().startswith('const')):
             self.bad(p, 'parameter %s of pointer / non-const reference type %s' % (p.get('name'), q))
         ty = self.resolve(p['type'], p)
